@@ -60,7 +60,7 @@ XFlags(t) == CASE t = "login"      -> {"pw"}
                [] OTHER            -> {}
 
 \* Which decision modules are loaded is part of the configuration.  iauth_xquery is the only stock module that declares
-\* policies (A, R, U, W) and handles passwords, queries and replies; without it (core alone, or core + iauth_class) the
+\* policies (A, R, U, W) and handles passwords, queries and replies; without it (core alone; iauth_class depends on it) the
 \* banner has no policy line and only the host name result is required.  A service table consisting of the single marker
 \* entry [name |-> "", type |-> "@noxquery"] stands for "iauth_xquery is not loaded" (an empty table = loaded, no services).
 XQ == ~(Len(Services) = 1 /\ Services[1].type = "@noxquery")
